@@ -447,31 +447,42 @@ func short(b []byte) string {
 
 func execExpander(p *Plan, run *core.Run) {
 	dst := core.H(p.Custom)
+	// aliasing: the caller keeps DST and message in one frame (DST || msg); the DST it
+	// hands over is frame[:len(DST)], whose spare capacity is the message
+	shared := p.Seed%2 == 1
+	frame := make([]byte, len(dst)+5001)
+	copy(frame, dst)
+	dstArg := func() []byte {
+		if shared {
+			return frame[:len(dst)]
+		}
+		return append([]byte{}, dst...)
+	}
 	var e expander.Expander
 	var ref func(msg []byte, n int) []byte
 	switch p.Fam {
 	case "xmd-SHA256":
-		e = expander.NewExpanderMD(crypto.SHA256, append([]byte{}, dst...))
+		e = expander.NewExpanderMD(crypto.SHA256, dstArg())
 		ref = func(m []byte, n int) []byte { return h2c.XMD("SHA256", m, dst, n) }
 	case "xmd-SHA384":
-		e = expander.NewExpanderMD(crypto.SHA384, append([]byte{}, dst...))
+		e = expander.NewExpanderMD(crypto.SHA384, dstArg())
 		ref = func(m []byte, n int) []byte { return h2c.XMD("SHA384", m, dst, n) }
 	case "xmd-SHA512":
-		e = expander.NewExpanderMD(crypto.SHA512, append([]byte{}, dst...))
+		e = expander.NewExpanderMD(crypto.SHA512, dstArg())
 		ref = func(m []byte, n int) []byte { return h2c.XMD("SHA512", m, dst, n) }
 	case "xof-SHAKE128":
 		if p.Param != 128 && p.Param != 256 {
 			run.Bad("k")
 			return
 		}
-		e = expander.NewExpanderXOF(xof.SHAKE128, uint(p.Param), append([]byte{}, dst...))
+		e = expander.NewExpanderXOF(xof.SHAKE128, uint(p.Param), dstArg())
 		ref = func(m []byte, n int) []byte { return h2c.XOF("SHAKE128", p.Param, m, dst, n) }
 	case "xof-SHAKE256":
 		if p.Param != 128 && p.Param != 256 {
 			run.Bad("k")
 			return
 		}
-		e = expander.NewExpanderXOF(xof.SHAKE256, uint(p.Param), append([]byte{}, dst...))
+		e = expander.NewExpanderXOF(xof.SHAKE256, uint(p.Param), dstArg())
 		ref = func(m []byte, n int) []byte { return h2c.XOF("SHAKE256", p.Param, m, dst, n) }
 	default:
 		run.Bad("family")
@@ -492,6 +503,11 @@ func execExpander(p *Plan, run *core.Run) {
 		if want == nil {
 			continue // the RFC aborts (documented panic in the library)
 		}
+		if shared {
+			copy(frame[len(dst):], msg)
+			msg = frame[len(dst) : len(dst)+len(msg)]
+			run.Fault("aliasing:dst-and-message-share-a-frame")
+		}
 		keep := append([]byte{}, msg...)
 		got := e.Expand(msg, uint(op.N))
 		run.Event("expander", "expand", op.Obj, op.N, got)
@@ -505,6 +521,10 @@ func execExpander(p *Plan, run *core.Run) {
 		}
 		if !bytes.Equal(keep, msg) {
 			run.Violate(comp, "modifies-its-input", "Expand changed the message buffer")
+			return
+		}
+		if shared && !bytes.Equal(frame[:len(dst)], dst) {
+			run.Violate(comp, "modifies-its-input", "Expand changed the caller's DST")
 			return
 		}
 	}
